@@ -220,6 +220,11 @@ func (l *Lexer) Next() (TokenType, []byte) {
 
 // The following functions follow the specifications at https://html.spec.whatwg.org/multipage/parsing.html
 
+// isTagNameEnd returns true for the characters that may follow a tag name: whitespace, '/', '>' or the end of input.
+func isTagNameEnd(c byte) bool {
+	return c == ' ' || c == '\t' || c == '\n' || c == '\f' || c == '\r' || c == '/' || c == '>' || c == 0
+}
+
 func (l *Lexer) shiftRawText() []byte {
 	if l.rawTag == Plaintext {
 		for {
@@ -241,7 +246,7 @@ func (l *Lexer) shiftRawText() []byte {
 						}
 						l.r.Move(1)
 					}
-					if h := ToHash(parse.ToLower(parse.Copy(l.r.Lexeme()[mark+2:]))); h == l.rawTag { // copy so that ToLower doesn't change the case of the underlying slice
+					if h := ToHash(parse.ToLower(parse.Copy(l.r.Lexeme()[mark+2:]))); h == l.rawTag && isTagNameEnd(c) { // copy so that ToLower doesn't change the case of the underlying slice
 						l.r.Rewind(mark)
 						return l.r.Shift()
 					}
@@ -267,7 +272,7 @@ func (l *Lexer) shiftRawText() []byte {
 								}
 								l.r.Move(1)
 							}
-							if h := ToHash(parse.ToLower(parse.Copy(l.r.Lexeme()[mark:]))); h == Script { // copy so that ToLower doesn't change the case of the underlying slice
+							if h := ToHash(parse.ToLower(parse.Copy(l.r.Lexeme()[mark:]))); h == Script && isTagNameEnd(c) { // copy so that ToLower doesn't change the case of the underlying slice
 								if !isEnd {
 									inScript = true
 								} else {
